@@ -212,13 +212,17 @@ def run(tier, seed):
     if model_viol:
         print("MODEL-DRIFT C12: Layout.tla violates %s" % model_viol)
     n_new, n_known = verdict.report("C12", viol)
+    from . import unbounded
+    unb = unbounded.for_property("C12", tier)      # Apalache / TLAPS: the index algebra for ALL batch sizes, depths, factors, K
     samples.append({"start_record": {k: v for k, v in recs[0].items()}} if recs else {})
     cov = {"states": states + st, "transitions": trans, "traces_validated_against_impl": n_rep + len(recs),
            "samples": samples, "exhaustive": True, "model_constants": C, "start_node_records": len(recs),
            "replayed_model_states": n_rep, "known_finding_witnesses": n_known,
-           "tlc_action_coverage": r1.coverage(),
+           "tlc_action_coverage": r1.coverage(), "unbounded": unb,
            "explanation": "Layout.tla model-checked; terminal states replayed into batchify/unbatchify/_select_best; "
-                          "select_start_nodes of real envs validated by LayoutTrace.tla"}
+                          "select_start_nodes of real envs validated by LayoutTrace.tla; the index algebra is lifted to all batch "
+                          "sizes / nesting depths / factors / K by Apalache inductive invariants (MC_Layout_apa.tla) and TLAPS "
+                          "(LayoutIdx_proofs.tla, thorough tier), tied to Layout.tla by a TLC equivalence check (MC_Layout_eq.tla)"}
     verdict.write_evidence("C12", tier, seed, "model_checking", cov,
                            ["multistart decode provenance (owner/best records) is produced by the C11 decode harness"],
                            time.time() - t0, n_new)
